@@ -240,9 +240,10 @@ func (e *env) Closed(w *vfs.Watcher)                    {}
 
 // selectCert is crypto/tls (*Config).getCertificate for a client that sends SNI "localhost"
 // (go1.26 crypto/tls/common.go); the undisturbed schedules cross-check it with real handshakes.
-func selectCert(cfg *tls.Config) (*tls.Certificate, error) {
-	hello := &tls.ClientHelloInfo{ServerName: "localhost"}
-	if cfg.GetCertificate != nil {
+func selectCert(cfg *tls.Config, serverName string) (*tls.Certificate, error) {
+	hello := &tls.ClientHelloInfo{ServerName: serverName}
+	// go1.26 crypto/tls: the callback is consulted when there are no static certificates or the client named a server
+	if cfg.GetCertificate != nil && (len(cfg.Certificates) == 0 || len(serverName) > 0) {
 		c, err := cfg.GetCertificate(hello)
 		if c != nil || err != nil {
 			return c, err
@@ -295,13 +296,13 @@ func classify(mat *certenv.Material, c *tls.Certificate, err error) served {
 	return s
 }
 
-func observe(mat *certenv.Material, cfg *tls.Config) (served, *tls.Certificate) {
+func observe(mat *certenv.Material, cfg *tls.Config, serverName string) (served, *tls.Certificate) {
 	var c *tls.Certificate
 	var err error
 	done := make(chan struct{})
 	go func() {
 		defer close(done)
-		c, err = selectCert(cfg)
+		c, err = selectCert(cfg, serverName)
 	}()
 	synctest.Wait()
 	select {
@@ -501,8 +502,12 @@ func runOne(t *testing.T, h history, c *mc.Chooser, o runOpts) (out mc.Outcome) 
 		var held []heldPair
 		check := func(when string) {
 			o.stats.observations++
-			s, cptr := observe(o.mat, cfg)
+			s, cptr := observe(o.mat, cfg, "localhost")
 			last = s
+			// a client that names no server (connects by address) is presented the same pair
+			if s0, _ := observe(o.mat, cfg, ""); s0.code() != s.code() && s0.what != "blocked" && s.what != "blocked" {
+				viol(&out, "pair-depends-on-server-name", "%s: after %s a client that sends server_name is presented %s, a client that sends none is presented %s", h, when, s.code(), s0.code())
+			}
 			for _, hp := range held {
 				if now := classify(o.mat, hp.c, nil); now.code() != hp.s.code() {
 					viol(&out, "handed-out-pair-changed", "%s: the certificate structure handed to a handshake after %s read as pair %s then; after %s the same structure reads as %s: a handshake still in flight presents a certificate and uses a key that were never handed out together",
